@@ -39,6 +39,8 @@ type LifePlan struct {
 	DiskOpenLat  time.Duration `json:"disk_open_lat,omitempty"`
 	// WriteErrAt > 0: the n-th data write fails with ENOSPC/EIO (injected disk fault).
 	WriteErrAt int `json:"write_err_at,omitempty"`
+	// NoTruth: skip the C04 truthfulness monitor (the crash world: a run must reach its crash).
+	NoTruth bool `json:"no_truth,omitempty"`
 	// CrashAtWrite / CrashPhase: C05 — take crash snapshots at these write gates.
 	CrashAtWrite []int  `json:"crash_at_write,omitempty"`
 	CrashPhase   string `json:"crash_phase,omitempty"`
@@ -104,6 +106,9 @@ func piecesOfFile(t *gen.Torrent, fi int) []int {
 // truth evaluates the truthfulness invariants on a Stats sample.
 func (w *lifeWorld) truth(st torrent.Stats, where string) {
 	T := w.T
+	if w.plan.NoTruth {
+		return
+	}
 	ok := DiskState(w.sut.FS, w.dir, T, false)
 	w.mu.Lock()
 	tainted := len(w.tainted)
@@ -230,6 +235,7 @@ func RunLifecycle(env *Env, plan *LifePlan) {
 			quiet := w.noFaults
 			w.mu.Unlock()
 			if plan.WriteErrAt > 0 && ev.N == plan.WriteErrAt && !quiet {
+				simrt.Count("fault.disk.write_error", 1)
 				return simfs.Fault{Err: fmt.Errorf("no space left on device")}
 			}
 		}
@@ -840,6 +846,10 @@ func init() {
 			lp.Cmds = append(lp.Cmds, c)
 		}
 		lp.Converge = true
+		lp.NoTruth = true
+		if r.Chance(0.25) { // a transient write error somewhere before the crash
+			lp.WriteErrAt = r.Range(1, 2*np+2)
+		}
 		p.Lifecycle = lp
 	}, Run: func(env *Env, p *Plan) { RunLifecycle(env, p.Lifecycle) }})
 }
